@@ -72,6 +72,7 @@ func GenConfig(rng *rand.Rand, tier string) qsim.Config {
 	cfg.MaxRound = 2 + rng.Intn(5)
 	cfg.FullNode = rng.Intn(2) == 0
 	cfg.Role = spectypes.BNRoleAttester
+	cfg.RunnerCompaction = rng.Intn(3) == 0 // a third of the executions: instances compacted like the real node's runner does
 	return cfg
 }
 
